@@ -94,3 +94,115 @@ theorem mem_setFut {futs : List Fut} {f : Nat} {g : Fut → Fut} {x : Fut} :
   · rintro ⟨y, hy, rfl⟩; exact ⟨y, hy, rfl⟩
 
 end ALock.Sem
+
+namespace ALock.Sem
+
+/-- every listener on the semaphore's event belongs to a live future (no stale listeners) -/
+def RegRev (s : Sys) : Prop := ∀ g, Ev.has s.q g = true → ∃ fu ∈ s.futs, fu.id = g
+
+theorem step_regRev (s : Sys) (op : Op) (h : RegRev s) : RegRev (next s op) := by
+  unfold next
+  cases op with
+  | start f arc =>
+    simp only [step]; split
+    · intro g hg
+      obtain ⟨x, hx, hxi⟩ := h g hg
+      exact ⟨x, List.mem_cons_of_mem _ hx, hxi⟩
+    · exact h
+  | poll f t =>
+    simp only [step]
+    split
+    · rename_i fu hfu
+      have hm := findFut_mem hfu
+      split
+      · exact h
+      · -- in every branch the owners of the queue are old owners or `fu.id`, and futs keep their ids
+        have key : ∀ (q' : List Entry) (futs' : List Fut),
+            (∀ g, Ev.has q' g = true → g = fu.id ∨ Ev.has s.q g = true) →
+            (∀ x ∈ s.futs, ∃ y ∈ futs', y.id = x.id) →
+            ∀ g, Ev.has q' g = true → ∃ y ∈ futs', y.id = g := by
+          intro q' futs' hq hfs g hg
+          rcases hq g hg with rfl | hold
+          · exact hfs fu hm.1
+          · obtain ⟨x, hx, hxi⟩ := h g hold
+            obtain ⟨y, hy, hyi⟩ := hfs x hx
+            exact ⟨y, hy, by rw [hyi, hxi]⟩
+        have hfs1 : ∀ g : Fut → Fut, (∀ x, (g x).id = x.id) →
+            ∀ x ∈ s.futs, ∃ y ∈ setFut s.futs fu.id g, y.id = x.id := by
+          intro g hgid x hx
+          refine ⟨_, mem_setFut.mpr ⟨x, hx, rfl⟩, ?_⟩
+          split <;> simp [hgid]
+        simp only [poll]
+        split
+        · -- completes: listener dropped
+          simp only [Sys.dropListener]
+          refine key _ _ ?_ ?_
+          · intro g hg
+            rw [Ev.has_drop] at hg
+            simp only [Bool.and_eq_true] at hg
+            exact Or.inr hg.1
+          · intro x hx
+            obtain ⟨y, hy, hyi⟩ := hfs1 (fun x => { x with polled := true, waker := t }) (fun _ => rfl) x hx
+            obtain ⟨z, hz, hzi⟩ : ∃ z ∈ setFut (setFut s.futs fu.id fun x => { x with polled := true, waker := t })
+                fu.id (fun x => { x with done := true }), z.id = y.id := by
+              refine ⟨_, mem_setFut.mpr ⟨y, hy, rfl⟩, ?_⟩
+              split <;> rfl
+            exact ⟨z, hz, by rw [hzi, hyi]⟩
+        · split
+          · split
+            · refine key _ _ ?_ (hfs1 _ (fun _ => rfl))
+              intro g hg
+              simp only [Ev.has, List.any_append, Bool.or_eq_true] at hg
+              rcases hg with hg | hg
+              · have : Ev.has (Ev.erase s.q fu.id) g = true := hg
+                rw [Ev.has_erase] at this
+                simp only [Bool.and_eq_true] at this
+                exact Or.inr this.1
+              · simp at hg; exact Or.inl hg.symm
+            · refine key _ _ ?_ (hfs1 _ (fun _ => rfl))
+              intro g hg
+              rw [Ev.has_setTask] at hg
+              exact Or.inr hg
+          · refine key _ _ ?_ (hfs1 _ (fun _ => rfl))
+            intro g hg
+            simp only [Ev.has, List.any_append, Bool.or_eq_true] at hg
+            rcases hg with hg | hg
+            · exact Or.inr hg
+            · simp at hg; exact Or.inl hg.symm
+    · exact h
+  | dropFut f =>
+    simp only [step]; split
+    · intro g hg
+      simp only [Sys.dropListener] at hg ⊢
+      rw [Ev.has_drop] at hg
+      simp only [Bool.and_eq_true, bne_iff_ne, ne_eq] at hg
+      obtain ⟨x, hx, hxi⟩ := h g hg.1
+      exact ⟨x, List.mem_filter.mpr ⟨hx, by simp [hxi, hg.2]⟩, hxi⟩
+    · exact h
+  | tryAcq g arc =>
+    simp only [step]; split
+    · split <;> exact h
+    · exact h
+  | dropGuard g =>
+    simp only [step]; split
+    · intro g' hg'
+      simp only [Sys.doNotify] at hg' ⊢
+      rw [Ev.has_notify] at hg'; exact h g' hg'
+    · exact h
+  | forget g =>
+    simp only [step]; split <;> exact h
+  | add n =>
+    simp only [step]
+    intro g' hg'
+    simp only [Sys.doNotify] at hg' ⊢
+    rw [Ev.has_notify] at hg'; exact h g' hg'
+  | hclone => exact h
+  | hdrop =>
+    simp only [step]; split <;> exact h
+
+theorem run_regRev (s : Sys) (ops : List Op) (h : RegRev s) : RegRev (run s ops) := by
+  induction ops generalizing s with
+  | nil => exact h
+  | cons op ops ih => exact ih _ (step_regRev s op h)
+
+end ALock.Sem
